@@ -15,6 +15,14 @@ CONSTANTS MaxLen,    \* steps per chain, the install included
 ASSUME TLCSet(1, 0)
 
 D(tag) == Sc("s:" \o tag)
+\* the dependency's own values.yaml per chart version: one default changes with the version, one
+\* does not.  (All versions define the same keys: a key that only the NEW version's dependency
+\* defines shows up under --reuse-values although the deployed defaults should stay in force -
+\* chart.Values := old coalesced values covers the root chart only; reported as a finding, not
+\* part of this menu.)
+SubDefaultsDef ==
+  LET sv(t) == [x \in {"x", "y"} |-> IF x = "x" THEN D(t) ELSE D("sd")]
+  IN IF Full THEN <<sv("sd1"), sv("sd2"), sv("sd3")>> ELSE <<sv("sd1"), sv("sd2")>>
 DefaultsDef ==
   LET d1 == [x \in {"a", "k"} |-> IF x = "a" THEN Mp([y \in {"b", "c"} |-> D("d1")]) ELSE D("d1")]
       d2 == [x \in {"a", "n"} |-> IF x = "a" THEN Mp([y \in {"b"} |-> D("d2")]) ELSE D("d2")]
@@ -39,12 +47,18 @@ Modes == {"default", "reset", "reuse", "rtr"}
 ComboModes == {"reset+reuse", "reuse+rtr", "reset+rtr", "reset+reuse+rtr"}
 NoVals == <<>>
 StepsAt(n) ==
-  IF n = 1 THEN {[op |-> "install", mode |-> "", vals |-> v, chart |-> 1, target |-> 0, fail |-> FALSE] : v \in V(1)}
-  ELSE {[op |-> "upgrade", mode |-> m, vals |-> v, chart |-> c, target |-> 0, fail |-> f] :
+  IF n = 1 THEN {[op |-> "install", mode |-> "", vals |-> v, chart |-> 1, target |-> 0, fail |-> FALSE, atomic |-> FALSE, auto |-> FALSE] : v \in V(1)}
+  ELSE {[op |-> "upgrade", mode |-> m, vals |-> v, chart |-> c, target |-> 0, fail |-> f, atomic |-> FALSE, auto |-> FALSE] :
            m \in Modes, v \in V(n), c \in DOMAIN Defaults, f \in BOOLEAN}
-       \cup {[op |-> "upgrade", mode |-> m, vals |-> v, chart |-> c, target |-> 0, fail |-> FALSE] :
+       \cup {[op |-> "upgrade", mode |-> m, vals |-> v, chart |-> c, target |-> 0, fail |-> FALSE, atomic |-> FALSE, auto |-> FALSE] :
            m \in ComboModes, v \in V(n), c \in DOMAIN Defaults}
-       \cup {[op |-> "rollback", mode |-> "", vals |-> NoVals, chart |-> 0, target |-> t, fail |-> FALSE] : t \in 1..(n - 1)}
+       \* an upgrade --atomic whose cluster update fails: it records a failed revision and then rolls
+       \* back by itself; the chain shows that as the next step, a rollback marked auto whose target is
+       \* the revision deployed before the upgrade (Allowed)
+       \cup {[op |-> "upgrade", mode |-> m, vals |-> v, chart |-> 1, target |-> 0, fail |-> TRUE, atomic |-> TRUE, auto |-> FALSE] :
+           m \in {"default", "reuse"}, v \in V(n)}
+       \cup {[op |-> "rollback", mode |-> "", vals |-> NoVals, chart |-> 0, target |-> t, fail |-> FALSE, atomic |-> FALSE, auto |-> TRUE] : t \in 1..(n - 1)}
+       \cup {[op |-> "rollback", mode |-> "", vals |-> NoVals, chart |-> 0, target |-> t, fail |-> FALSE, atomic |-> FALSE, auto |-> FALSE] : t \in 1..(n - 1)}
 
 \* a state is the sequence of the indexes picked in StepSeq(1), StepSeq(2), ...
 StepSeq1 == SetToSeq(StepsAt(1))
@@ -55,6 +69,18 @@ StepSeq5 == SetToSeq(StepsAt(5))
 StepSeq(n) == CASE n = 1 -> StepSeq1 [] n = 2 -> StepSeq2 [] n = 3 -> StepSeq3 [] n = 4 -> StepSeq4 [] OTHER -> StepSeq5
 ASSUME MaxLen <= 5
 
+StepsOf(p) == [n \in DOMAIN p |-> StepSeq(n)[p[n]]]
+\* an atomic upgrade is followed by exactly its own rollback (and needs room for it); an auto
+\* rollback occurs nowhere else
+Allowed(p, i) ==
+  LET n  == Len(p) + 1
+      s  == StepSeq(n)[i]
+      st == StepsOf(p)
+      afterAtomic == n > 1 /\ st[n - 1].atomic IN
+  /\ s.atomic => n < MaxLen
+  /\ afterAtomic => (s.auto /\ s.target = DepAt(Append(st, s), n))
+  /\ s.auto => afterAtomic
+
 VARIABLE pick
 Init == pick = <<>>
 \* Term (simulation only): a complete pick gets one more step that appends 0; TLC evaluates a
@@ -64,9 +90,8 @@ Next == \/ /\ Term
            /\ Len(pick) = MaxLen
            /\ pick' = Append(pick, 0)
         \/ /\ Len(pick) < MaxLen
-           /\ \E i \in 1..Len(StepSeq(Len(pick) + 1)) : pick' = Append(pick, i)
+           /\ \E i \in 1..Len(StepSeq(Len(pick) + 1)) : Allowed(pick, i) /\ pick' = Append(pick, i)
 Spec == Init /\ [][Next]_pick
-StepsOf(p) == [n \in DOMAIN p |-> StepSeq(n)[p[n]]]
 
 (* ----- model check ---------------------------------------------------------- *)
 \* differences per revision between the code-shaped chain and the property:
@@ -87,18 +112,20 @@ DiffsOf(st) ==
         IN c \cup e
   IN UNION {one(i) : i \in 1..n} \cup (IF NullUniform(st, cfgs, n) THEN {} ELSE {"L:null-nonuniform"})
 
-StepJ(s) == [op |-> s.op, mode |-> s.mode, vals |-> Mp(s.vals), chart |-> s.chart, target |-> s.target, fail |-> s.fail]
+StepJ(s) == [op |-> s.op, mode |-> s.mode, vals |-> Mp(s.vals), chart |-> s.chart, target |-> s.target, fail |-> s.fail, atomic |-> s.atomic, auto |-> s.auto]
 RECURSIVE PickStr(_)
 PickStr(p) == IF p = <<>> THEN "" ELSE "_" \o ToString(p[1]) \o PickStr(Tail(p))
 ChainJ(p) == LET st == StepsOf(p) IN
              [id |-> "c" \o PickStr(p), defaults |-> [i \in DOMAIN Defaults |-> Mp(Defaults[i])],
+              subdefaults |-> [i \in DOMAIN SubDefaults |-> Mp(SubDefaults[i])],
               steps |-> [i \in DOMAIN st |-> StepJ(st[i])], diffs |-> SetToSeq(DiffsOf(st))]
 
 \* exhaustive: every chain one step short of MaxLen writes all its completions
 ExportBatch ==
   IF Len(pick) = MaxLen - 1
-  THEN LET L == StepSeq(MaxLen) IN
-       ndJsonSerialize("gen/c" \o PickStr(pick) \o ".ndjson", [i \in 1..Len(L) |-> ChainJ(Append(pick, i))])
+  THEN LET L   == StepSeq(MaxLen)
+           idx == SelectSeq([i \in 1..Len(L) |-> i], LAMBDA i : Allowed(pick, i)) IN
+       ndJsonSerialize("gen/c" \o PickStr(pick) \o ".ndjson", [k \in 1..Len(idx) |-> ChainJ(Append(pick, idx[k]))])
   ELSE TRUE
 
 \* simulation (-workers 1): one file per complete chain
